@@ -975,6 +975,25 @@ func c20FreshLists(c *core.Ctx, pkg string) {
 							return
 						}
 					}
+					// the slices library: Clone returns fresh storage; the in-place
+					// operations return (a re-slice of) the storage of their first argument
+					g := x.Call.StaticCallee()
+					if g != nil && g.Origin() != nil {
+						g = g.Origin()
+					}
+					if g != nil && g.Pkg != nil && g.Pkg.Pkg.Path() == "slices" && len(x.Call.Args) > 0 {
+						nm := g.Name()
+						if i := strings.IndexByte(nm, '['); i >= 0 {
+							nm = nm[:i]
+						}
+						switch nm {
+						case "Clone":
+							return
+						case "DeleteFunc", "Delete", "Compact", "CompactFunc", "Clip", "Grow", "Insert":
+							walk(x.Call.Args[0])
+							return
+						}
+					}
 					// a helper of the engine that builds and returns the list
 					if rvs := core.ReturnedValues(x); !(len(rvs) == 1 && rvs[0] == ssa.Value(x)) {
 						for _, rv := range rvs {
